@@ -667,6 +667,8 @@ class Interp:
             self._try_ev(target.value, env).fields[target.attr] = value
         elif isinstance(target, ast.Subscript) and isinstance(env.get(norm(target.value)), (list, dict)):
             _guard(env[norm(target.value)].__setitem__, self.ev(target.slice, env), value)
+        elif isinstance(target, ast.Subscript) and isinstance(target.value, ast.Attribute) and isinstance(self._try_ev(target.value, env), (list, dict)):
+            _guard(self._try_ev(target.value, env).__setitem__, self.ev(target.slice, env), value)
         else:
             env[norm(target)] = value
             if self.on_store is not None:
